@@ -228,8 +228,8 @@ class StateScenario(Scenario):
                      "rejected %s (%s) changed the configuration at %s: %r -> %r" % (route, what, d[0], d[1], d[2]))
 
     def check_frame(self, st, rec, s0, cfg, path, route, what):
-        """C01/C12: an accepted operation on `path` changes nothing else (values and user-defined flags)."""
-        if self.prop not in ("C01", "C12"):
+        """C01/C12/C13: an accepted operation on `path` changes nothing else (values and user-defined flags)."""
+        if self.prop not in ("C01", "C12", "C13"):
             return
         rec.check()
         s1 = snapshot.snap(cfg, st.serials)
